@@ -97,7 +97,7 @@ Definition query_hashes (seed : N) (ls : list (list N)) (qs : list (option N)) :
 
 (* tamperings: (kind, i, impl verdict).  kind 0: query hash i replaced by another value's leaf hash;
    1: root replaced; 2: sibling hash i replaced; 3: idx i replaced by the idx of leaf position j (encoded in i as
-   i = qi * 65536 + j) *)
+   i = qi * 65536 + j); 4: the claim (idx of query i, another hash) put in FRONT of the honest claims *)
 Definition other_hash (seed k : N) : hsh := hleaf (other_val seed (1000 + k)).
 Definition replace_nth {A} (i : nat) (x : A) (l : list A) : list A := set_nth i x l.
 
@@ -121,10 +121,12 @@ Definition check_proof (c : proof_case) : N :=
     if k =? 0 then verify_proof hbranch bytes_eqb (replace_nth (N.to_nat i) (other_hash seed i) qh) n iidxs isibs root
     else if k =? 1 then verify_proof hbranch bytes_eqb qh n iidxs isibs (other_hash seed 7)
     else if k =? 2 then verify_proof hbranch bytes_eqb qh n iidxs (replace_nth (N.to_nat i) (other_hash seed i) isibs) root
-    else match loc_index (i mod 65536) 0 height with
+    else if k =? 3 then
+         match loc_index (i mod 65536) 0 height with
          | Some idx => verify_proof hbranch bytes_eqb qh n (replace_nth (N.to_nat (i / 65536)) idx iidxs) isibs root
          | None => false
-         end in
+         end
+    else verify_proof hbranch bytes_eqb (other_hash seed i :: qh) n (nth (N.to_nat i) iidxs 0 :: iidxs) isibs root in
   let agree_t := forallb (fun t => Bool.eqb (snd t) (tamper_model t)) tampers in
   let has_present := existsb (fun q => match q with Some _ => true | None => false end) qs in
   let present := flat_map (fun q => match q with Some p => [p] | None => [] end) qs in
